@@ -873,6 +873,141 @@ func (g *Gen) midIterationBurst() []*Step {
 	return append(st, IterationAcross(fam, key, mid, "iteration"))
 }
 
+// systematicBurst: situations that stored changes once hit only by a lucky draw, now built on
+// purpose (the sweep of all stored changes is the regression test for them).
+func (g *Gen) systematicBurst() []*Step {
+	fam := func(f string) bool { return g.Prof.Families[f] > 0 }
+	steps := func(ops ...*Op) []*Step {
+		var st []*Step
+		for _, o := range ops {
+			st = append(st, &Step{Ops: []*Op{o}})
+		}
+		return st
+	}
+	var kinds []string
+	if fam("zset") {
+		kinds = append(kinds, "ties")
+	}
+	if g.Prof.Expiry {
+		for _, f := range []string{"list", "set", "hash", "zset", "str"} {
+			if fam(f) {
+				kinds = append(kinds, "expired-"+f)
+			}
+		}
+	}
+	if g.Prof.Scan {
+		kinds = append(kinds, "default-page")
+	}
+	if fam("key") || g.Prof.Binary {
+		kinds = append(kinds, "like-names")
+	}
+	if len(kinds) == 0 {
+		return nil
+	}
+	k, k2 := g.Keys[0], g.Keys[1%len(g.Keys)]
+	switch kind := kinds[g.pick(len(kinds))]; {
+	case kind == "ties":
+		// equal scores, inserted against the byte order of the members (and one moved into the
+		// tie group later); then ranks that cut through the group
+		names := [][]string{{"c", "a", "b"}, {"b", "c", "a"}, {"z", "m", "a", "k"}}[g.pick(3)]
+		ops := []*Op{KDelete(k)}
+		for _, n := range names {
+			ops = append(ops, ZAdd(k, VStr(n), 1))
+		}
+		ops = append(ops, ZAdd(k, VStr("late"), 5), ZAdd(k, VStr("late"), 1))
+		a, b := g.pick(3), g.pick(3)
+		switch g.pick(5) {
+		case 0:
+			ops = append(ops, ZDeleteRank(k, a, a), ZRangeRank(k, 0, -1, false))
+		case 1:
+			ops = append(ops, ZDeleteRank(k, a, a+b), ZRangeRank(k, 0, -1, true))
+		case 2:
+			ops = append(ops, ZRangeRank(k, a, a+b, g.chance(0.5)), ZGetRank(k, VStr(names[0]), false), ZGetRank(k, VStr(names[1]), true))
+		case 3:
+			ops = append(ops, ZRangeScore(k, 1, 1, g.chance(0.5), a, 1+b), ZRangeScore(k, 0, 9, false, a, -1))
+		default:
+			ops = append(ops, ZGetRank(k, VStr("late"), false), ZDeleteRank(k, 1, 2), ZGetRank(k, VStr("late"), true), ZRangeRank(k, 0, -1, false))
+		}
+		return steps(ops...)
+	case strings.HasPrefix(kind, "expired-"):
+		// a collection that has expired but is still stored, then an operation that would find
+		// its elements: it must see nothing and leave no trace
+		past := g.past()
+		var build, probes []*Op
+		switch kind {
+		case "expired-list":
+			build = []*Op{LPushBack(k, VStr("a")), LPushBack(k, VStr("b")), LPushBack(k, VStr("a"))}
+			probes = []*Op{LDelete(k, VStr("a")), LDeleteFront(k, VStr("a"), 1), LDeleteBack(k, VStr("a"), 2), LSet(k, 0, VStr("v")), LTrim(k, 0, 0),
+				LPopFront(k), LPopBack(k), LInsertBefore(k, VStr("b"), VStr("x")), LInsertAfter(k, VStr("a"), VStr("x")), LRange(k, 0, -1), LLen(k), LGet(k, -1), LPopBackPushFront(k, k2)}
+		case "expired-set":
+			build = []*Op{EAdd(k, VStr("a"), VStr("b"))}
+			probes = []*Op{EDelete(k, VStr("a")), EMove(k, k2, VStr("a")), EExists(k, VStr("a")), ELen(k), EItems(k), EAlg("union", k, k2), EStore("inter", k2, k, k)}
+		case "expired-hash":
+			build = []*Op{HSet(k, "f", VStr("5")), HSet(k, "g", VStr("x"))}
+			probes = []*Op{HDelete(k, "f"), HIncr(k, "f", 1), HGet(k, "f"), HLen(k), HFields(k), HSet(k, "f", VStr("n"))}
+		case "expired-zset":
+			build = []*Op{ZAdd(k, VStr("a"), 1), ZAdd(k, VStr("b"), 2)}
+			probes = []*Op{ZDelete(k, VStr("a")), ZDeleteRank(k, 0, 0), ZDeleteScore(k, 0, 5), ZIncr(k, VStr("a"), 1), ZGetRank(k, VStr("a"), false), ZLen(k),
+				ZRangeRank(k, 0, -1, false), ZGetScore(k, VStr("b")), ZAlg(true, "sum", k, k), ZStore(false, "sum", k2, k)}
+		default:
+			build = []*Op{SSet(k, VStr("5"))}
+			probes = []*Op{SIncr(k, 1), SGet(k), KPersist(k), KExpire(k, hour), KRename(k, k2), KExists(k), KGet(k)}
+		}
+		var ops []*Op
+		for i := 0; i < 3; i++ {
+			ops = append(ops, KDelete(k, k2))
+			ops = append(ops, build...)
+			ops = append(ops, KExpireAt(k, past), probes[g.pick(len(probes))])
+		}
+		return steps(ops...)
+	case kind == "default-page":
+		// more elements than the default page holds (10), iterated with the default page size
+		fm := []byte{'E', 'H', 'Z'}[g.pick(3)]
+		n := 11 + g.pick(15)
+		st := steps(KDelete(k))
+		for i := 0; i < n; i++ {
+			name := fmt.Sprintf("m%02d", i)
+			switch fm {
+			case 'E':
+				st = append(st, &Step{Ops: []*Op{EAdd(k, VStr(name))}})
+			case 'H':
+				st = append(st, &Step{Ops: []*Op{HSet(k, name, VStr("v"))}})
+			default:
+				st = append(st, &Step{Ops: []*Op{ZAdd(k, VStr(name), float64(i%4))}})
+			}
+		}
+		return append(st, CollIteration(fm, k, []string{"*", "m*", "m1*"}[g.pick(3)], 0))
+	default:
+		// names that are patterns to LIKE, and names that differ only in letter case - all with
+		// a time-to-live, then by-name operations on one of them: the twins must not move
+		names := []string{"a_c", "abc", "ABC", "a%c", "aXc", "a%"}
+		var ops []*Op
+		ops = append(ops, KDelete(names...))
+		for i, n := range names {
+			ops = append(ops, SSet(n, VStr(fmt.Sprint(i))), KExpire(n, hour*int64(1+i)))
+		}
+		target := []string{"a_c", "a%c", "AbC", "a%", "ABC"}[g.pick(5)]
+		switch g.pick(6) {
+		case 0:
+			ops = append(ops, KPersist(target))
+		case 1:
+			ops = append(ops, KExpire(target, 5*hour))
+		case 2:
+			ops = append(ops, KDelete(target))
+		case 3:
+			ops = append(ops, KRename(target, "renamed"))
+		case 4:
+			ops = append(ops, SIncr(target, 1))
+		default:
+			ops = append(ops, KExists(target), SGet(target))
+		}
+		for _, n := range names {
+			ops = append(ops, KGet(n))
+		}
+		return steps(ops...)
+	}
+}
+
 func (g *Gen) burst() []*Step {
 	if g.Prof.Scan && !g.Prof.Glob && !g.Prof.Binary && g.chance(0.3) {
 		return g.keyScanBurst()
@@ -882,6 +1017,11 @@ func (g *Gen) burst() []*Step {
 	}
 	if g.Prof.Scan && g.chance(0.6) {
 		return g.scanBurst()
+	}
+	if g.chance(0.5) {
+		if st := g.systematicBurst(); st != nil {
+			return st
+		}
 	}
 	var ops []*Op
 	k1, k2 := g.Keys[0], g.Keys[1%len(g.Keys)]
